@@ -200,7 +200,9 @@ Formats:
 
 	for _, m := range ms.Modules {
 		if mods[m.Name] == nil {
-			mods[m.Name] = m
+			// The bare name denotes the latest revision loaded; taking m
+			// itself would make the revision printed depend on map order.
+			mods[m.Name] = ms.Modules[m.Name]
 			names = append(names, m.Name)
 		}
 	}
